@@ -479,7 +479,7 @@ class Printer(StatusWriter, RawWriter):
         self._ansi_color = None
         self.ansi_color = ansi_color
         if self.ansi_color:
-            colorama.init()
+            colorama.just_fix_windows_console()
         self._strikethrough = False
         self._plusthrough = False
         if options is not None:
